@@ -276,14 +276,14 @@ def check_union(S, r, depth, n_perturb):
         try:
             u = mk()
         except Exception as e:  # noqa
-            S.viol(f"union raises {type(e).__name__}", dict(rp, observed=repr(e), expected="an any schema"))
+            S.viol(f"union raises {type(e).__name__}", dict(rp, observed=common.srepr(e), expected="an any schema"))
             continue
         if opterm is not None:
             S.add("combcase", lambda: f"({opterm()}, {cres_schema(mk, kt)})", rp)
         got = list(u)
         if len(got) != len(expect_flat) or any(x is not y for x, y in zip(got, expect_flat)):
             S.viol("alternatives of the union are not the flattened operands in order",
-                   dict(rp, observed=repr(got)[:400], expected=repr(expect_flat)[:400]))
+                   dict(rp, observed=common.srepr(got)[:400], expected=common.srepr(expect_flat)[:400]))
         S.add("anyitercase", lambda: f"({absn.cschema(u, kt)}, " +
                                      absn.clist([absn.cschema(x, kt) for x in got]) + ")", rp)
         S.dist["union:operands=%d" % n] += 1
@@ -338,7 +338,7 @@ def check_alias(S, r, depth, n_perturb):
     S.add("combcase", lambda: f"(OpAlias {absn.cstr(name)} {absn.cschema(t, kt)}, " +
                               cres_schema(lambda: schema.alias(name, t), kt) + ")", rp)
     if al.props.type is not t or al.props.name != name:
-        S.viol("alias does not expose its target / name", dict(rp, observed=repr(al.props)))
+        S.viol("alias does not expose its target / name", dict(rp, observed=common.srepr(al.props)))
     for v in values_for(r, [t], n_perturb):
         S.oracle_cases += 1
         a, b = verdict(al, v), verdict(t, v)
@@ -371,9 +371,9 @@ def _probe_members(S, r, d, dsrc, member_of, order, relaxed, kt):
         rp = dict(rp0, key=gen.vsrc(k))
         if want is None:
             if out != "KeyError":
-                S.viol(f"d[{k!r}] on an undeclared key / `...`: {out}", dict(rp, expected="KeyError", observed=repr(got)))
+                S.viol(f"d[{k!r}] on an undeclared key / `...`: {out}", dict(rp, expected="KeyError", observed=common.srepr(got)))
         elif out != "ok" or got is not want:
-            S.viol(f"d[{k!r}] is not the declared member", dict(rp, expected=repr(want), observed=repr(got)))
+            S.viol(f"d[{k!r}] is not the declared member", dict(rp, expected=common.srepr(want), observed=common.srepr(got)))
         S.add("getcase", lambda: f"({absn.cschema(d, kt)}, {absn.ckey(k, kt)}, " +
                                  absn.cresult(lambda: d[k], lambda m: "None" if m is ... else
                                               f"(Some {absn.cschema(m, kt)})") + ")", rp)
@@ -384,14 +384,14 @@ def _probe_members(S, r, d, dsrc, member_of, order, relaxed, kt):
     if len(real) != len(order) or any(not _keq(x, y) for x, y in zip(real, order)) or \
             len(ks) != len(it) or any(x is not y for x, y in zip(ks, it)):
         S.viol("iteration / keys() do not list the declared keys in order",
-               dict(rp0, observed=repr(it), expected=repr(order)))
+               dict(rp0, observed=common.srepr(it), expected=common.srepr(order)))
     if any(k is ... for k in it):
         # recorded observation (see report): iteration yields the relaxed marker, for which
         # d[...] raises KeyError, so [d[k] for k in d] fails on a relaxed schema
         S.dist["iter:yields_ellipsis"] += 1
         S.observations.setdefault("iteration_yields_ellipsis", dsrc)
         if not relaxed:
-            S.viol("iteration yields `...` for a schema that is not relaxed", dict(rp0, observed=repr(it)))
+            S.viol("iteration yields `...` for a schema that is not relaxed", dict(rp0, observed=common.srepr(it)))
     elif relaxed:
         S.observations.setdefault("iteration_hides_ellipsis", dsrc)
     probe = r.choice(probes[:-2] + [True])
@@ -421,7 +421,7 @@ def check_add(S, r, depth, n_perturb):
     try:
         d = d1 + d2
     except Exception as e:  # noqa
-        S.viol(f"d1 + d2 raises {type(e).__name__}", dict(rp, observed=repr(e)))
+        S.viol(f"d1 + d2 raises {type(e).__name__}", dict(rp, observed=common.srepr(e)))
         return
     S.add("combcase", lambda: f"(OpAdd {absn.cschema(d1, kt)} {absn.cschema(d2, kt)}, " +
                               cres_schema(lambda: d1 + d2, kt) + ")", rp)
@@ -448,9 +448,9 @@ def check_add(S, r, depth, n_perturb):
         same_term = True
     if not same_keys or not same_term or repr(d) != repr(expected):
         S.viol("d1 + d2 is not the dict schema with d1's keys overridden and extended by d2's",
-               dict(rp, observed=repr(d)[:500], expected=repr(expected)[:500]))
+               dict(rp, observed=common.srepr(d)[:500], expected=common.srepr(expected)[:500]))
     if (... in list(d)) != (d1s.relaxed() or d2s.relaxed()):
-        S.viol("d1 + d2 is relaxed iff either operand is: violated", dict(rp, observed=repr(d)[:300]))
+        S.viol("d1 + d2 is relaxed iff either operand is: violated", dict(rp, observed=common.srepr(d)[:300]))
     vals = values_for(r, [d1, d2, expected], n_perturb)
     for v in vals:
         S.oracle_cases += 1
@@ -543,7 +543,7 @@ def check_required(S, r, depth, n_perturb):
             S.viol(f"make_required with an undeclared key: {out}", dict(rp, expected="DeclarationError"))
         return
     if out != "ok":
-        S.viol(f"make_required raises {out}", dict(rp, observed=repr(d2)))
+        S.viol(f"make_required raises {out}", dict(rp, observed=common.srepr(d2)))
         return
     need = [k for k in eff if k is not ...]
     if sum(1 for s in S.samples if s.get("op") == "make_required") < 2 and ds.entries:
